@@ -16,14 +16,14 @@ def declare(S: Spec):
            " and KnownOp(op.pipeline._runtime_status, op)")
 
     # Pipeline.runtime_status(): lazily created status; under contract only the already-initialised case
-    S.fn(f"{MP}:Pipeline.runtime_status",
+    S.fn(f"{MP}:Pipeline.runtime_status", owners=["C02"],
          returns=Ref("PipelineRuntimeStatus"),
          requires=["self._runtime_status is not None"],
          ensures=["result is self._runtime_status"],
          modifies=[],
          note="lazy-creation branch excluded by precondition: every pipeline's status is created when the main loop records its arrival")
 
-    S.fn(f"{MA}:Assignment.__init__",
+    S.fn(f"{MA}:Assignment.__init__", owners=["C02", "C09"],
          params={"ops": List(Ref("Operator")), "cpu": REAL, "ram": REAL, "priority": Enum("Priority"), "pool_id": INT,
                  "pipeline_id": STR, "container_id": Opt(STR), "is_resume": BOOL, "force_run": BOOL},
          requires=["ops is not None", "all(WFop(op) for op in ops)", "GI1()"],
@@ -44,14 +44,14 @@ def declare(S: Spec):
                              "all(state(o) == old(state(o)) for o in every('Operator') if o not in take(ops, k))",
                              "GI1()", "k <= len(ops)"])})
 
-    S.fn(f"{MC}:Container.set_current_memory_usage",
+    S.fn(f"{MC}:Container.set_current_memory_usage", owners=["C04"],
          params={"new_memory": REAL},
          requires=["self.pool is not None"],
          ensures=["self._current_memory == new_memory",
                   "self.pool.consumed_ram_gb == old(self.pool.consumed_ram_gb) + new_memory - old(self._current_memory)"],
          modifies=["self._current_memory", "self.pool.consumed_ram_gb"])
 
-    S.fn(f"{MC}:Container._mark_completed",
+    S.fn(f"{MC}:Container._mark_completed", owners=["C04", "C09"],
          params={"error": Opt(STR)},
          requires=["self.pool is not None"],
          ensures=["self._completed", "self.error == error", "self._current_memory == 0",
@@ -76,7 +76,7 @@ def declare2(S: Spec):
                          "all(state(o) == old(state(o)) for o in every('Operator') if o not in take(rest(self), j))",
                          "GI1()", "j <= len(rest(self))"])
 
-    S.fn(f"{MC}:Container.kill",
+    S.fn(f"{MC}:Container.kill", owners=["C02", "C09"],
          params={"error": STR},
          requires=["CWF(self)", "GI1()", "not self._completed",
                    "all(state(op) in (OperatorState.ASSIGNED, OperatorState.RUNNING) for op in rest(self))"],
@@ -90,13 +90,13 @@ def declare2(S: Spec):
          loops={0: dict(header="for op in self.operators[self._current_op_idx:]", **suffix_loop("FAILED"))},
          covers={"mid-run": "self._current_op_idx >= 1 and len(self.assignment.ops) >= 3"})
 
-    S.fn(f"{MC}:Container.suspend_container",
+    S.fn(f"{MC}:Container.suspend_container", owners=["C10", "C02"],
          requires=["CWF(self)", "GI1()", "self.assignment.ram > 0",
                    "all(state(op) == OperatorState.ASSIGNED for op in rest(self))"],
-         ensures=[("duration", "self.suspend_ticks == max(1, floor(rmul(self.assignment.ram / 20, self.ticks_per_second)))"),
+         ensures=[("duration", "C10| self.suspend_ticks == max(1, floor(rmul(self.assignment.ram / 20, self.ticks_per_second)))"),
                   ("counter", "self._suspend_ticks_left == self.suspend_ticks"),
-                  ("at-least-one", "self._suspend_ticks_left >= 1"),
-                  ("stops-counting", "self._current_memory == 0 and"
+                  ("at-least-one", "C10| self._suspend_ticks_left >= 1"),
+                  ("stops-counting", "C04,C10| self._current_memory == 0 and"
                                      " self.pool.consumed_ram_gb == old(self.pool.consumed_ram_gb) - old(self._current_memory)"),
                   ("suffix-suspending", "all(state(op) == OperatorState.SUSPENDING for op in rest(self))"),
                   ("others-kept", "all(state(o) == old(state(o)) for o in every('Operator') if o not in rest(self))"),
@@ -104,7 +104,7 @@ def declare2(S: Spec):
          modifies=OPS_MOD + ["self.suspend_ticks", "self._suspend_ticks_left", "self._current_memory", "self.pool.consumed_ram_gb"],
          loops={0: dict(header="for op in self.operators[self._current_op_idx:]", **suffix_loop("SUSPENDING"))})
 
-    S.fn(f"{MC}:Container.suspend_container_tick",
+    S.fn(f"{MC}:Container.suspend_container_tick", owners=["C10", "C02"],
          requires=["CWF(self)", "GI1()", "self._suspend_ticks_left is not None", "self._suspend_ticks_left >= 1",
                    "all(state(op) == OperatorState.SUSPENDING for op in rest(self))"],
          ensures=[("counter", "self._suspend_ticks_left == old(self._suspend_ticks_left) - 1"),
